@@ -235,6 +235,23 @@ def make_inputs(d: Path, ins, assoc, tag='', form='list'):
     return paths, apaths
 
 
+def make_resplit_assoc(d: Path, ins, asizes):
+    """The same flights in the same flat order, written into parts of the sizes `asizes` (base + associated file each);
+    only the associated files of this second set are used."""
+    TS = _aeic()[0]
+    flat = [(k, j, shape) for k, shape in enumerate(ins, start=1) for j in range(shape['n'])]
+    apaths, pos = [], 0
+    for part, n in enumerate(asizes, start=1):
+        p = d / f'rs_base_{part}.nc'
+        ap = d / f'rs_assoc_{part}.nc'
+        with TS.create(base_file=p, associated_files=[(ap, ['vf_assoc'])]) as ts:
+            for k, j, shape in flat[pos : pos + n]:
+                ts.add(build_item(k, j, shape, True))
+        pos += n
+        apaths.append(ap)
+    return apaths
+
+
 def readable_everywhere(out: Path, paths, ins):
     """NothingLost at data level: each input's trajectories can be read from
     its original path or from the merged directory."""
@@ -347,6 +364,8 @@ def run_case(case):
                 if case['assoc']:
                     aout = d / 'merged_assoc.aeic-store'
                     try:
+                        if case.get('asplit') == 'resplit':
+                            apaths = make_resplit_assoc(d, ins, case['asizes'])
                         _aeic()[0].merge(output_store=aout, input_stores=list(apaths))
                         devs += check_merged(out, case, assoc_out=aout)
                     except Exception as e:
